@@ -8,6 +8,7 @@ RULE_TEXT = {
     'G2-cp-sound': 'can_partially_succeed() False => every failure exit leaves _pos at ENTRY',
     'G3-protocol': 'every exit has a definite _status; failure => _result is an error function; '
                    'success => it is not',
+    'G5-local-stores': 'emitted rule code stores only through locals of the rule function',
     'S-flow': 'position provenance at child starts and success exits follows the PEG table',
     'S-value': 'value provenance at success exits follows the PEG table',
     'S-choice-order': 'option i+1 is reachable only when options 1..i failed; first success commits',
